@@ -7250,7 +7250,6 @@ tsk_tree_map_mutations(tsk_tree_t *self, int32_t *genotypes,
     const tsk_id_t *restrict left_child = self->left_child;
     const tsk_id_t *restrict right_sib = self->right_sib;
     const tsk_size_t N = tsk_treeseq_get_num_nodes(self->tree_sequence);
-    const tsk_flags_t *restrict node_flags = self->tree_sequence->tables->nodes.flags;
     tsk_id_t *nodes = tsk_malloc(tsk_tree_get_size_bound(self) * sizeof(*nodes));
     /* Note: to use less memory here and to improve cache performance we should
      * probably change to allocating exactly the number of nodes returned by
@@ -7285,8 +7284,10 @@ tsk_tree_map_mutations(tsk_tree_t *self, int32_t *genotypes,
         }
         u = self->tree_sequence->samples[j];
         if (genotypes[j] == TSK_MISSING_DATA) {
-            /* All bits set */
-            optimal_set[u] = UINT64_MAX;
+            /* No constraint: the set is left empty here and filled in from the
+             * node's children below, exactly as for a non-sample node (which
+             * gives all alleles for a leaf). */
+            optimal_set[u] = 0;
         } else {
             optimal_set[u] = set_bit(optimal_set[u], genotypes[j]);
             num_alleles = TSK_MAX(genotypes[j], num_alleles);
@@ -7323,8 +7324,10 @@ tsk_tree_map_mutations(tsk_tree_t *self, int32_t *genotypes,
                 allele_count[allele] += bit_is_set(optimal_set[v], allele);
             }
         }
-        /* the virtual root has no flags defined */
-        if (u == (tsk_id_t) N || !(node_flags[u] & TSK_NODE_IS_SAMPLE)) {
+        /* Nodes with an observed state keep it; all others (non-samples, the
+         * virtual root and samples with missing data) take the most common
+         * states among their children. */
+        if (optimal_set[u] == 0) {
             max_allele_count = 0;
             for (allele = 0; allele < num_alleles; allele++) {
                 max_allele_count = TSK_MAX(max_allele_count, allele_count[allele]);
